@@ -139,7 +139,17 @@ func (f *chainFam) lgProject(s *lgSnap) M {
 		bids[d] = num(s.bids[d])
 		sup[d] = num(new(big.Int).Sub(s.supply[d], f.lgBase.supply[d]))
 	}
-	out := M{"bal": bal, "bids": bids, "coll": num(s.coll), "supply": sup}
+	// auth records of the labelled accounts: (account number, sequence); -1 = no account yet
+	auth := M{}
+	for _, l := range f.labels {
+		acc := f.c.App.AccountKeeper.GetAccount(f.c.Ctx, f.c.Acct(l).Addr)
+		if acc == nil {
+			auth[l] = M{"num": int64(-1), "seq": int64(0)}
+		} else {
+			auth[l] = M{"num": int64(acc.GetAccountNumber()), "seq": int64(acc.GetSequence())}
+		}
+	}
+	out := M{"bal": bal, "bids": bids, "coll": num(s.coll), "supply": sup, "auth": auth}
 	if !fits || f.lgBig {
 		f.lgBig = true
 		return M{"big": true}
